@@ -61,6 +61,9 @@ class Interp(ValueOps, ExprMixin, StmtMixin, CallMixin):
                     v = v.but(clock=True)
             self.state.env[p] = v
             self.param_avs[p] = v
+        if self.self_cls:
+            for attr, spec in self.A.class_attrs(self.self_cls).items():
+                self.self_attr_av(attr, spec)
         if fi.vararg:
             self.state.env[fi.vararg] = AV(['tuple'], elem=AV(ALLK, org=['E:' + fi.vararg]))
         if fi.kwarg:
